@@ -7,14 +7,11 @@ import UnytModel.C14Check
 namespace Unyt.C14
 
 /-- every listed name of chunk 0 (four slices of 64 rows) is read by the string route and by the
-    three attribute routes as the independent reference reads it (guard: word-prefixed °C) -/
+    three attribute routes as the independent reference reads it -/
 theorem names_slice_00_0 : namesSliceOk 0 0 = true := by decide +kernel
 theorem names_slice_00_1 : namesSliceOk 0 1 = true := by decide +kernel
 theorem names_slice_00_2 : namesSliceOk 0 2 = true := by decide +kernel
 theorem names_slice_00_3 : namesSliceOk 0 3 = true := by decide +kernel
-
-/-- every excluded name of chunk 0 really is unusable as a unit string -/
-theorem exclusions_chunk_00 : exclusionsChunkOk 0 = true := by decide +kernel
 
 /-- prefix spellings 3·0 … 3·0+2 (symbols, then word forms) are rejected on every
     non-prefixable spelling (three slices of 110 spelling rows) -/
